@@ -21,7 +21,7 @@
 (***************************************************************************)
 EXTENDS Naturals, Sequences, SequencesExt, FiniteSets, Tables
 
-CONSTANT Q          \* subset of {"PinnedExpiry", "RootStallIgnored"}
+CONSTANT Q          \* subset of {"PinnedExpiry", "RootStallIgnored", "SendNoExpiry"}
 
 VARIABLES
     nodes,          \* [addr -> node record], domain grows on demand; addr = sequence of 0..3 non-zero bytes
@@ -87,11 +87,12 @@ PinnedLoop(nd, aty, i, t) ==
 (* a send call for node n: stamp, queue behind earlier held messages, release what fits *)
 SendNsG(ns, g, n, ty, data) ==
     LET nd0 == Node(ns, n)
-        nd1 == IF "PinnedExpiry" \in Q THEN nd0 ELSE ExpireAll(nd0, now)
+        pinnedSend == "PinnedExpiry" \in Q \/ "SendNoExpiry" \in Q      \* a send neither evaluates the expiry nor retries held messages
+        nd1 == IF pinnedSend THEN nd0 ELSE ExpireAll(nd0, now)
         sq  == IF seqOn THEN nd1.sseq ELSE 0
         m   == [seq |-> sq, ty |-> ty, data |-> data, id |-> FGet(g.sub, n, 0) + 1]
         nd2 == [nd1 EXCEPT !.sseq = IF seqOn THEN IncSeq(@) ELSE @]
-        nd3 == IF "PinnedExpiry" \in Q
+        nd3 == IF pinnedSend
                THEN (* pinned: admitted only if nothing is held; otherwise queued, the queue is not retried *)
                     IF ~Blocked(ns, n) /\ nd2.defer = <<>> /\ Used(nd2) + RespSize(ty) <= ResponseLimit
                     THEN [nd2 EXCEPT !.pend = Append(@, m),
